@@ -232,6 +232,8 @@ def ref_pool(x, window, stride, pad, kind):
   N, Lx, C = x.shape
   if pad == 'VALID':
     lo = hi = 0
+  elif not isinstance(pad, str):
+    (lo, hi), = pad
   else:
     out = -(-Lx // stride)
     tot = max((out - 1) * stride + window - Lx, 0)
@@ -560,6 +562,54 @@ def norm_family(which):
             wn.append((x.at((n_, l_, ch)) - mu) * r * sc.at((ch,)) + bi.at((ch,)))
           cases.append(('nnx.GroupNorm groups=%r size=%r' % (groups, gsize), gn_out,
                         A(wn, (N, Lx, C))))
+        # explicit reduction_axes on a rank-4 input: the statistics keep every
+        # axis that is not reduced, and each channel uses its own group's
+        x4 = A.sym('y', (1, 2, 2, 4))
+        for ra in ((-1,), (2, 3), (1, 3), (1, 2, 3)):
+          G, gs = 2, 2
+          cra = tuple(sorted(a % 4 for a in ra))
+          keep = [d for d in range(3) if d not in cra]
+
+          def want_of(call):
+            out = []
+            for i in idxs(x4.shape):
+              si = tuple(i[d] for d in keep) + (i[3] // gs,)
+              mu, var = call['mu'].at(si), call['var'].at(si)
+              r = symnp.LAX.rsqrt(A([var + eps], ())).data[0]
+              out.append((x4.at(i) - mu) * r * sc.at((i[3],)) + bi.at((i[3],)))
+            return A(out, x4.shape)
+
+          def grouping_ok(call):
+            xg = call['x']
+            if xg.shape != (1, 2, 2, G, gs) or call['axes'] != cra[:-1] + (4,):
+              return False
+            if sym.CONCRETE['on']:
+              return True
+            return all(xg.at(i[:3] + (i[3] // gs, i[3] % gs)) is x4.at(i)
+                       for i in idxs(x4.shape))
+
+          gn = nn.GroupNorm(num_groups=G, epsilon=R(eps), reduction_axes=ra)
+          got = gn.apply({'params': {'scale': sc, 'bias': bi}}, x4)
+          c = stub_l.calls[-1]
+          if not grouping_ok(c):
+            return dict(status='sat', cex=dict(case='GroupNorm reduction_axes=%r '
+                                               'grouping' % (ra,)))
+          cases.append(('GroupNorm reduction_axes=%r' % (ra,), got, want_of(c)))
+          ng = nnx.GroupNorm(4, num_groups=G, epsilon=R(eps), reduction_axes=ra,
+                             rngs=nnx.Rngs(0))
+          ng.scale.value, ng.bias.value = R(sc), R(bi)
+          try:
+            gn_out = ng(R(x4))
+          except Exception as e:
+            return dict(status='sat', cex=dict(
+                case='nnx.GroupNorm reduction_axes=%r' % (ra,)),
+                detail='raises %s' % type(e).__name__)
+          cn = stub_n.calls[-1]
+          if not grouping_ok(cn):
+            return dict(status='sat', cex=dict(case='nnx.GroupNorm reduction_axes=%r'
+                                               ' grouping' % (ra,)))
+          cases.append(('nnx.GroupNorm reduction_axes=%r' % (ra,), gn_out,
+                        want_of(cn)))
         inn = nn.InstanceNorm(epsilon=R(eps))
         got = inn.apply({'params': {'scale': sc, 'bias': bi}}, x)
         c = stub_l.calls[-1]
@@ -667,7 +717,8 @@ def dropout_pool(which):
       inf = S(1e30) if sym.CONCRETE['on'] else symnp.JNP.inf
       extra = [inf.t > v.t for v in x.data] + [-inf.t < v.t for v in x.data]
       for win, st, pad in [(2, 1, 'VALID'), (2, 2, 'VALID'), (3, 2, 'SAME'),
-                           (3, 1, 'SAME')]:
+                           (3, 1, 'SAME'), (2, 1, ((1, 1),)), (3, 2, ((1, 1),)),
+                           (3, 1, ((0, 2),))]:
         cases.append(('avg_pool %d/%d/%s' % (win, st, pad), nn.avg_pool(
             R(x), (win,), (st,), pad), ref_pool(x, win, st, pad, 'avg')))
         # count_include_pad=False: divide by the number of real (unpadded) inputs
@@ -682,6 +733,19 @@ def dropout_pool(which):
             R(x), (win,), (st,), pad), ref_pool(x, win, st, pad, 'max')))
         cases.append(('min_pool %d/%d/%s' % (win, st, pad), nn.pooling.min_pool(
             R(x), (win,), (st,), pad), ref_pool(x, win, st, pad, 'min')))
+        # extra / missing batch dimensions: pooling acts on (window dims, features)
+        # whatever precedes them
+        wa = ref_pool(x, win, st, pad, 'avg')
+        for nb, shp in ((0, (5, 2)), (2, (1, 1, 5, 2)), (3, (1, 1, 1, 5, 2))):
+          try:
+            gb = nn.avg_pool(R(x.reshape(shp)), (win,), (st,), pad)
+          except Exception as e:
+            return dict(status='sat', cex=dict(
+                case='avg_pool %d/%d/%s with %d batch dims' % (win, st, pad, nb)),
+                detail='raises %s' % type(e).__name__, queries=0,
+                solver_s=time.time() - t0)
+          cases.append(('avg_pool %d/%d/%s with %d batch dims' % (win, st, pad, nb),
+                        gb, wa.reshape(shp[:-2] + wa.shape[1:])))
   return _prove(cases, t0, extra)
 
 
